@@ -155,8 +155,18 @@ def oracle(ctx, widened):
     for ti, text in enumerate(TLES):
         tle = Tle(text)
         orb0 = tle.orbit()
-        for k in range(ninst):
-            dt = timedelta(seconds=rng.uniform(-3, 3) * 86400)
+        instants = [timedelta(seconds=rng.uniform(-3, 3) * 86400) for _ in range(ninst)]
+        # boundary instants: within the scale offsets (TAI-UTC, TT-UTC, GPS-UTC, |UT1-UTC|) of a UTC midnight and of a New Year,
+        # with fractional seconds — where the calendar fields (day, year) of the same instant differ from one label to another
+        from beyond.dates import Date as _Date
+        ny = _Date(orb0.date.datetime.year + 1, 1, 1)
+        some_day = _Date(int(orb0.date.mjd) + rng.randint(2, 20), 0.0)
+        deltas = [-69.4, -68.3, -37.5, -36.6, -35.4, -32.684, -31.7, -19.5, -18.4, -17.6, -0.6, -0.316, 0.25, 0.9, 17.7, 18.6, 31.684, 32.5, 36.5, 68.7]
+        picks = deltas if big else rng.sample(deltas, 5)
+        for base in (ny, some_day):
+            for dl in picks:
+                instants.append((base + timedelta(seconds=dl)) - orb0.date)
+        for k, dt in enumerate(instants):
             d_utc = orb0.date + dt
             inst = f"tle{ti}+{dt.total_seconds():.3f}s"
             # ---- analytical propagators
@@ -170,6 +180,10 @@ def oracle(ctx, widened):
                         o = relabel(base_orb, le)
                         o.propagator = get_propagator(pname)()
                         cmp(pname, inst, ld, le, lambda: o.propagate(d_utc.change_scale(ld)).copy(form="cartesian", frame="TEME"), ref)
+                        if ld == "UTC" and le in ("UTC", "TAI", "TT", "GPS"):
+                            # the same request as a timedelta from the (relabelled) epoch — uniform scales only: a timedelta added to a
+                            # UT1/TDB epoch is that many seconds of UT1/TDB, which legitimately differs from SI seconds
+                            cmp(pname + "-timedelta", inst, "timedelta", le, lambda: o.propagate(dt).copy(form="cartesian", frame="TEME"), ref)
             # ---- native SGP4 (near-Earth TLEs only)
             if ti != 1:
                 s = Sgp4Beta(); s.orbit = orb0
